@@ -460,6 +460,17 @@ func (c *Channel) onHandshake() {
 	func() {
 		c.mu.Lock()
 		defer c.mu.Unlock()
+		now := time.Now()
+		if se := c.sessions[2]; se.Session != nil && se.Session.ExpiresAt().Before(now) {
+			// An expired handshake attempt can never complete: the answers to its messages are rejected.
+			// Without this it would be retransmitted until the rekey timer fires, which may be never
+			// (the timer is not re-armed while the prospective slot is occupied).
+			c.setNext(sessionEntry{})
+			if se.Session.IsInit() {
+				id, s := c.newInit(now)
+				c.proposeNewSession(id, s)
+			}
+		}
 		for _, se := range c.sessions {
 			if se.Session != nil && !se.Session.IsReady() {
 				out := se.Session.Handshake(nil)
